@@ -741,6 +741,23 @@ func (e *Env) call(x *ECall) (TV, error) {
 			ref = sBase(ref)
 		}
 		return TV{and(le(e.old.wm, ref), lt(ref, e.st.wm)), tBool}, nil
+	case "loopfresh":
+		// loopfresh(x): x was allocated since the loop was entered (loop clauses)
+		if len(x.Args) != 1 {
+			return TV{}, fmt.Errorf("loopfresh takes one argument")
+		}
+		if e.pre == nil {
+			return TV{}, fmt.Errorf("loopfresh() only available in loop clauses")
+		}
+		v, err := e.eval(x.Args[0])
+		if err != nil {
+			return TV{}, err
+		}
+		ref := v.T
+		if ref.Sort == SSlice {
+			ref = sBase(ref)
+		}
+		return TV{and(le(e.pre.wm, ref), lt(ref, e.st.wm)), tBool}, nil
 	case "unboxptr":
 		// unboxptr(x, "T"): the *T stored in interface value x
 		if len(x.Args) != 2 {
